@@ -518,12 +518,33 @@ def execute(case, mon):
             inner_calls.append((args, kwargs, output))
 
         handle = mod.single_head_attention.register_forward_hook(inner_hook, with_kwargs=True)
+    warm = None
+    if not multi and spec["dim"] < 0 and case["seed"] % 2 == 0:
+        # a history on ONE module object: first the same data with one more leading dimension (a negative sequence
+        # dimension means the same thing for every rank), then the judged call
+        mw = mask if (mask is None or case.get("mask_leading_dims_dropped")) else mask.unsqueeze(0)
+        with torch.no_grad():
+            warm = soft.run(_call, mon, mod, q.unsqueeze(0), k.unsqueeze(0), v.unsqueeze(0), mw,
+                            name + "(first call, one rank higher)")
+        mon.cls("module_called_with_another_rank_first")
     try:
         with torch.no_grad():
             out = _call(mon, mod, q, k, v, mask)
     finally:
         if handle is not None:
             handle.remove()
+    if warm is not None:
+        soft.run(_cmp, mon, "rank-change-history", warm.squeeze(0), out, c_sum, dtype)
+    if not multi and case["seed"] % 5 == 0 and dtype == "float32":
+        # integer-typed values (counts, class indicators) are values like any other
+        vi = v.round().to(torch.int64)
+        with torch.no_grad():
+            out_i = soft.run(_call, mon, mod, q, k, vi, mask, name + "(integer values)")
+            out_f = soft.run(_call, mon, mod, q, k, vi.to(q.dtype), mask, name + "(the same values as floats)")
+        if out_i is not None and out_f is not None:
+            soft.run(mon.check, out_i.dtype.is_floating_point, "integer-values", what="output dtype",
+                     observed=str(out_i.dtype))
+            soft.run(_cmp, mon, "integer-values", out_i.to(out_f.dtype), out_f, c_sum, dtype)
     es = _eshape(q, k, pos)
     es_v = _bshape(es, v.shape[:-1])
     out_batch = es_v[:pos] + es_v[pos + 1:]
